@@ -32,6 +32,7 @@ KNOWN_CLASSES = {
     "kmstring.size-extension.alphabet-dropped.uper": lambda f, s, used: s == "uper" and "kmstr.size-ext-outside" in f,
     "int.beyond-long.xer": lambda f, s, used: s == "xer" and "int.beyond-long" in f,
     "real.basic-xer-precision": lambda f, s, used: False,
+    "enum.addition-below-root.uper": lambda f, s, used: s == "uper" and "enum.addition-below-root" in f,
 }
 
 
